@@ -4,8 +4,9 @@
     python3 tools/test_rs2lean_collections.py [--repo /repo]
 
 REFUSE: edits outside the grammar — the translator must fail closed (exit 2, reason printed).
-ACCEPT: meaning-preserving edits — the translator must still produce a file (whether the equality proofs of
-Props/C18Gen.lean absorb the new text is checked by `./check C18`, not here).
+ACCEPT: edits inside the grammar — the translator must still produce a file (whether the equality proofs of
+Props/C18Gen.lean absorb the new text — they must for the meaning-preserving ones and must not for the others — is
+checked by `./check C18`, not here).
 """
 import os, sys, json, shutil, subprocess, tempfile, argparse
 
@@ -20,32 +21,47 @@ NUM_INF = ("    fn number_inferable(&self) -> NumericalValue {\n        self.get
            "            .filter(|i| i.is_inferable())\n            .count() as NumericalValue")
 
 REFUSE = {
+    'match-guard': (OBS, "(self.observation() >= target_threshold) && (self.observed_effect() == target_effect)",
+                    "match self.observation() >= target_threshold { true if self.observed_effect() == target_effect => true, _ => false }"),
+    'two-accumulators': (INF, NUM_INF, "    fn number_inferable(&self) -> NumericalValue {\n        let mut n = 0;\n        let mut m = 0;\n"
+                                       "        for i in self.get_all_items() { if i.is_inferable() { n += 1; } else { m += 1; } }\n        n as NumericalValue"),
+    'break-in-loop': (INF, NUM_INF, "    fn number_inferable(&self) -> NumericalValue {\n        let mut n = 0;\n"
+                                    "        for i in self.get_all_items() { if i.is_inferable() { n += 1; } else { break; } }\n        n as NumericalValue"),
+    'iterator-used-after-while-let': (INF, NUM_INF, "    fn number_inferable(&self) -> NumericalValue {\n        let mut n = 0;\n"
+                                      "        let mut it = self.get_all_items().into_iter();\n        while let Some(i) = it.next() { if i.is_inferable() { n += 1; } }\n"
+                                      "        (n + it.count()) as NumericalValue"),
+    'reversed-iteration': (INF, ".filter(|i| i.is_inferable())\n            .collect()", ".rev().filter(|i| i.is_inferable())\n            .collect()"),
+    'filter-map-to-something-else': (ASM, ".filter(|a| a.assumption_valid())\n            .collect()",
+                                     ".filter_map(|a| a.assumption_valid().then_some(self.get_all_items()[0]))\n            .collect()"),
+    'retain-on-a-temporary': (ASM, ".filter(|a| a.assumption_valid())\n            .collect()", ".collect::<Vec<_>>()\n            .retain(|a| a.assumption_valid())"),
+    'three-parameter-closure': (ASM, ".filter(|a| a.assumption_valid())\n            .count()", ".fold(0, |n, a, b| n + 1)"),
     'while-loop': (INF, LOOP_INF, "        let items = self.get_all_items();\n        let mut k = 0;\n        while k < items.len() {\n"
                                   "            if !items[k].is_inferable() { return false; }\n            k += 1;\n        }\n        true"),
-    'mut-counter': (INF, NUM_INF, "    fn number_inferable(&self) -> NumericalValue {\n        let mut n = 0;\n"
-                                  "        for i in self.get_all_items() { if i.is_inferable() { n += 1; } }\n        n as NumericalValue"),
     'return-inside-value-block': (INF, "        let one = 1.0;", "        let one = { if self.len() == 0 { return 0.0; } 1.0 };"),
     'override-in-extension': (EXT, "impl<T> InferableReasoning<T> for Vec<T>\nwhere\n    T: Inferable,\n{\n    make_len!();",
                               "impl<T> InferableReasoning<T> for Vec<T>\nwhere\n    T: Inferable,\n{\n"
                               "    fn number_inferable(&self) -> f64 { 0.0 }\n    make_len!();"),
-    'match': (OBS, "(self.observation() >= target_threshold) && (self.observed_effect() == target_effect)",
-              "match self.observation() >= target_threshold { true => self.observed_effect() == target_effect, false => false }"),
     'member-value-vs-literal': (OBS, "(self.observation() >= target_threshold)", "(self.observation() >= 0.5)"),
-    'partial_cmp': (INF, "(self.observation().total_cmp(&self.threshold()) == Ordering::Greater)",
-                    "(self.observation().partial_cmp(&self.threshold()) == Some(Ordering::Greater))"),
     'map-sum': (INF, NUM_INF, "    fn number_inferable(&self) -> NumericalValue {\n        self.get_all_items().into_iter()"
                               ".map(|i| if i.is_inferable() { 1.0 } else { 0.0 }).sum::<f64>()"),
     'flag-initialised-by-call': (AMOD, "assumption_valid: Arc::new(RwLock::new(false))", "assumption_valid: Arc::new(RwLock::new(compute()))"),
     'store-to-non-cell': (AIMPL, "*guard_tested = true;", "*guard_tested = true; self.id = 3;"),
     'default-became-required': (INF, "    fn percent_non_inferable(&self) -> NumericalValue {\n        (self.number_non_inferable() / self.len() as "
                                      "NumericalValue) * (100 as NumericalValue)\n    }", "    fn percent_non_inferable(&self) -> NumericalValue;"),
-    'closure-two-params': (ASM, ".filter(|a| a.assumption_valid())\n            .count()", ".fold(0, |n, a| if a.assumption_valid() { n + 1 } else { n })"),
     'local-captures-generated-name': (INF, "let non_inferable = self.number_non_inferable();",
                                       "let abs_num = self.number_non_inferable(); let non_inferable = abs_num;"),
     'unsigned-subtraction': (INF, "let total = self.len() as NumericalValue;", "let total = (self.len() - 0) as NumericalValue;"),
 }
 ACCEPT = {
     'unchanged': None,
+    'mut-counter-loop': (INF, NUM_INF, "    fn number_inferable(&self) -> NumericalValue {\n        let mut n = 0;\n"
+                                  "        for i in self.get_all_items() { if i.is_inferable() { n += 1; } }\n        n as NumericalValue"),
+    'match-on-bool': (OBS, "(self.observation() >= target_threshold) && (self.observed_effect() == target_effect)",
+              "match self.observation() >= target_threshold { true => self.observed_effect() == target_effect, false => false }"),
+    # inside the grammar and transcribed as written (K.partial_cmp, i.e. `>` / `==`); it is *not* total_cmp, and is_inferable_eq fails
+    'partial_cmp-instead-of-total_cmp': (INF, "(self.observation().total_cmp(&self.threshold()) == Ordering::Greater)",
+                    "(self.observation().partial_cmp(&self.threshold()) == Some(Ordering::Greater))"),
+    'fold-two-parameter-closure': (ASM, ".filter(|a| a.assumption_valid())\n            .count()", ".fold(0, |n, a| if a.assumption_valid() { n + 1 } else { n })"),
     'loop-to-all': (INF, LOOP_INF, "        self.get_all_items().iter().all(|element| element.is_inferable())"),
     'count-to-collect-len': (INF, NUM_INF, NUM_INF.replace(".count()", ".collect::<Vec<_>>()\n            .len()")),
     'typed-closure-param-and-deref': (ASM, ".filter(|a| !a.assumption_tested())", ".filter(|a: &&T| !(*a).assumption_tested())"),
